@@ -178,7 +178,12 @@ fn c11_v6_dispatch_icmp_57() {
 
 /// UDP (privileged): mode 0 classic, 1 Paris, 2 Dublin (payload = marker + (sequence - initial) bytes).
 fn dispatch_udp(size: u16, mode: u8, dublin_len: u16) {
-    let ipv6 = any_ipv6_cfg(Protocol::Udp, size, false);
+    let mut ipv6 = any_ipv6_cfg(Protocol::Udp, size, false);
+    if mode == 2 {
+        // the Dublin payload is the marker plus padding, the pattern is not asserted on: keep it concrete in
+        // both tiers (this query runs without field sensitivity and is the heaviest of the wire layer)
+        ipv6.payload_pattern = PayloadPattern(0xA5);
+    }
     let mut probe = any_probe(match mode {
         1 => Flags::PARIS_CHECKSUM,
         2 => Flags::DUBLIN_IPV6_PAYLOAD_LENGTH,
